@@ -166,10 +166,15 @@ def gen_whitelist(rng, frames):
 def gen_world(rng, tier, stream):
     use_urdf = rng.random() < 0.8
     u = gen_urdf(rng, tier) if use_urdf else None
+    empty = use_urdf and rng.random() < 0.04        # a robot without any collider: queries on an empty tree
+    if empty:
+        for ln in u["links"]:
+            ln["collisions"] = []
     base = u["links"][0]["name"] if u else "base"
     parents = [ln["name"] for ln in u["links"]] if u else ["base"]
     extras = []
-    for k in range(rng.choices([0, 1, 2, 3, 5], [0.35, 0.25, 0.2, 0.15, 0.05])[0] if use_urdf else rng.randint(1, 7)):
+    for k in range(0 if empty else
+                   rng.choices([0, 1, 2, 3, 5], [0.35, 0.25, 0.2, 0.15, 0.05])[0] if use_urdf else rng.randint(1, 7)):
         kind, params = gen_geom(rng, ["capsule", "cone", "mesh", "sphere", "box", "cylinder"])
         extras.append(dict(frame=f"x{k}", parent=rng.choice(parents), T=gen_pose(rng, 0.6),
                            kind=kind, params=params, pose0=gen_pose(rng, 0.6)))
